@@ -373,3 +373,154 @@ def prop_cli_new_level_2(c: str, d: str) -> bool:
     """
     return _expect("cli.new_level", lambda v: _cli("new_level", v), c + d, esc1(c) + esc1(d))
 
+
+# ---- one symbolic slot while every OTHER user-controlled slot is empty (falsy): 'show X when Y is empty' fallbacks must escape too
+
+_CARD_USER = ("fg", "bg", "tuned_fg", "selector", "file_path")
+_BULK_USER = ("fg", "bg", "tuned_fg", "selector", "file")
+_CLI_USER = ("selector", "file", "bg", "original_text", "tuned_text")
+
+
+def _card_e(slot, s):
+    kw = dict(BASE)
+    for k in _CARD_USER:
+        kw[k] = ""
+    kw[slot] = s
+    return visualiser.to_html(**kw)
+
+
+def _bulk_e(slot, s):
+    pair = dict(original_level="FAIL", new_level="AA")
+    for k in _BULK_USER:
+        pair[k] = ""
+    pair[slot] = s
+    return _capture(visualiser, lambda: visualiser.to_html_bulk([pair], output_path="x.html"))
+
+
+def _cli_e(slot, s):
+    pair = dict(original_level="FAIL", new_level="AA")
+    for k in _CLI_USER:
+        pair[k] = ""
+    pair[slot] = s
+    return _capture(html_report, lambda: html_report.generate_report([pair], output_path="x.html"))
+
+
+def prop_card_fg_others_empty(c: str) -> bool:
+    """
+    pre: len(c) == 1
+    post: _
+    """
+    return _expect("card_e.fg", lambda v: _card_e("fg", v), c + "", esc1(c))
+
+
+def prop_card_bg_others_empty(c: str) -> bool:
+    """
+    pre: len(c) == 1
+    post: _
+    """
+    return _expect("card_e.bg", lambda v: _card_e("bg", v), c + "", esc1(c))
+
+
+def prop_card_tuned_fg_others_empty(c: str) -> bool:
+    """
+    pre: len(c) == 1
+    post: _
+    """
+    return _expect("card_e.tuned_fg", lambda v: _card_e("tuned_fg", v), c + "", esc1(c))
+
+
+def prop_card_selector_others_empty(c: str) -> bool:
+    """
+    pre: len(c) == 1
+    post: _
+    """
+    return _expect("card_e.selector", lambda v: _card_e("selector", v), c + "", esc1(c))
+
+
+def prop_card_file_path_others_empty(c: str) -> bool:
+    """
+    pre: len(c) == 1
+    post: _
+    """
+    return _expect("card_e.file_path", lambda v: _card_e("file_path", v), c + "", esc1(c))
+
+
+def prop_bulk_fg_others_empty(c: str) -> bool:
+    """
+    pre: len(c) == 1
+    post: _
+    """
+    return _expect("bulk_e.fg", lambda v: _bulk_e("fg", v), c + "", esc1(c))
+
+
+def prop_bulk_bg_others_empty(c: str) -> bool:
+    """
+    pre: len(c) == 1
+    post: _
+    """
+    return _expect("bulk_e.bg", lambda v: _bulk_e("bg", v), c + "", esc1(c))
+
+
+def prop_bulk_tuned_fg_others_empty(c: str) -> bool:
+    """
+    pre: len(c) == 1
+    post: _
+    """
+    return _expect("bulk_e.tuned_fg", lambda v: _bulk_e("tuned_fg", v), c + "", esc1(c))
+
+
+def prop_bulk_selector_others_empty(c: str) -> bool:
+    """
+    pre: len(c) == 1
+    post: _
+    """
+    return _expect("bulk_e.selector", lambda v: _bulk_e("selector", v), c + "", esc1(c))
+
+
+def prop_bulk_file_others_empty(c: str) -> bool:
+    """
+    pre: len(c) == 1
+    post: _
+    """
+    return _expect("bulk_e.file", lambda v: _bulk_e("file", v), c + "", esc1(c))
+
+
+def prop_cli_selector_others_empty(c: str) -> bool:
+    """
+    pre: len(c) == 1
+    post: _
+    """
+    return _expect("cli_e.selector", lambda v: _cli_e("selector", v), c + "", esc1(c))
+
+
+def prop_cli_file_others_empty(c: str) -> bool:
+    """
+    pre: len(c) == 1
+    post: _
+    """
+    return _expect("cli_e.file", lambda v: _cli_e("file", v), c + "", esc1(c))
+
+
+def prop_cli_bg_others_empty(c: str) -> bool:
+    """
+    pre: len(c) == 1
+    post: _
+    """
+    return _expect("cli_e.bg", lambda v: _cli_e("bg", v), c + "", esc1(c))
+
+
+def prop_cli_original_text_others_empty(c: str) -> bool:
+    """
+    pre: len(c) == 1
+    post: _
+    """
+    return _expect("cli_e.original_text", lambda v: _cli_e("original_text", v), c + "", esc1(c))
+
+
+def prop_cli_tuned_text_others_empty(c: str) -> bool:
+    """
+    pre: len(c) == 1
+    post: _
+    """
+    return _expect("cli_e.tuned_text", lambda v: _cli_e("tuned_text", v), c + "", esc1(c))
+
